@@ -360,8 +360,11 @@ theorem pendDF_runFrame (p : Prog) (hh : Hist) {s : St} {f : Frame} (h : PendDF 
     simp only [runFrame, doExclActs]
     split
     · exact pendD_gen h nopend0 (by trkD) rfl (fs := [.flush]) rfl (noPend_of_empty rfl)
-    · exact pendD_gen h nopend0 (by trkD) (by simp [St.push])
-        (fs := [.exclActs sys (i + 1)]) (by simp [St.push]) (noPend_of_empty rfl)
+    · split
+      · exact pendD_gen h nopend0 (by trkD) (by simp [St.push])
+          (fs := [.flush, .exclActs sys (i + 1)]) (by simp [St.push]) (noPend_of_empty rfl)
+      · exact pendD_gen h nopend0 (by trkD) (by simp [St.push])
+          (fs := [.exclActs sys (i + 1)]) (by simp [St.push]) (noPend_of_empty rfl)
   | topActs t i =>
     simp only [runFrame, doTopActs]
     split
